@@ -99,8 +99,29 @@ func (s *scriptedConsumer) consume(_ context.Context, md pmetric.Metrics) error 
 	s.tr.add(logEntry{kind: "consumeEnd", batch: i, out: out})
 	switch out {
 	case "perm":
-		return consumererror.NewPermanent(errors.New("scripted permanent error"))
+		// whatever the cause is - a plain error, a wrapped one, a gRPC status of a "retryable" or a
+		// "non-retryable" code, as an exporter behind the receiver returns them - an error marked
+		// permanent by the consumer is a permanent rejection
+		var cause error
+		switch (i + len(s.outcomes)) % 6 {
+		case 0:
+			cause = errors.New("scripted permanent error")
+		case 1:
+			cause = status.Error(codes.ResourceExhausted, "scripted permanent error: destination over quota")
+		case 2:
+			cause = fmt.Errorf("export failed: %w", status.Error(codes.Unavailable, "scripted permanent error"))
+		case 3:
+			cause = status.Error(codes.InvalidArgument, "scripted permanent error")
+		case 4:
+			cause = status.Error(codes.DeadlineExceeded, "scripted permanent error")
+		default:
+			cause = fmt.Errorf("scripted permanent error: %w", io.ErrUnexpectedEOF)
+		}
+		return consumererror.NewPermanent(cause)
 	case "trans":
+		if (i+len(s.outcomes))%3 == 1 {
+			return status.Error(codes.Unavailable, "scripted transient error")
+		}
 		return errors.New("scripted transient error")
 	}
 	return nil
